@@ -456,6 +456,7 @@ func concKinds() []concKind {
 	}})
 	ks = append(ks, eccKinds()...)
 	ks = append(ks, sharedKinds()...)
+	ks = append(ks, edVariantKinds()...)
 	return ks
 }
 
